@@ -10,6 +10,7 @@ import (
 	"errors"
 	"fmt"
 	"math/big"
+	"sync"
 	"time"
 )
 
@@ -101,4 +102,20 @@ func ChannelBinding(st tls.ConnectionState) (cbType string, data []byte, err err
 		}
 		return "tls-unique", append([]byte(nil), st.TLSUnique...), nil
 	}
+}
+
+var (
+	srvCertOnce sync.Once
+	srvCert     tls.Certificate
+	srvCertErr  error
+)
+
+// ServerTLSConfig returns a server-side tls.Config for exactly the given protocol version with a self-signed
+// certificate for "localhost" generated once per process (clients use InsecureSkipVerify).
+func ServerTLSConfig(version uint16) (*tls.Config, error) {
+	srvCertOnce.Do(func() { srvCert, srvCertErr = selfSigned() })
+	if srvCertErr != nil {
+		return nil, srvCertErr
+	}
+	return &tls.Config{MinVersion: version, MaxVersion: version, Certificates: []tls.Certificate{srvCert}}, nil
 }
